@@ -1034,7 +1034,10 @@ def effects(pdb, ctx, root=None):
             kind = None
             if lk == "Index":
                 kind = "set" if k == "Assign" else "upd"
-                e = Effect(kind=kind, node=n, target=ctx.term(l["base"]), index=ctx.term(l["idx"]), value=ctx.term(n["r"]),
+                tgt_ = ctx.term(l["base"])
+                if tgt_[0] == "field" and tgt_[2] == "vec" and tgt_[1][0] == "var" and adt_of(ty_of(strip(deref(l["base"])).get("e", {}))) == "vector::Vector":
+                    tgt_ = tgt_[1]          # `v.vec[i]` of a local Vector v is `v[i]`
+                e = Effect(kind=kind, node=n, target=tgt_, index=ctx.term(l["idx"]), value=ctx.term(n["r"]),
                            op=n.get("op"), loops=enclosing_loops(n), tnode=l["base"], vnode=n["r"], inode=l["idx"])
             else:
                 kind = "assign" if k == "Assign" else "assignop"
